@@ -44,6 +44,11 @@ def run(ctx, col, tier):
     from ..rules import stateless
     stateless.check_memo(ctx, col, "R-MEMO", ("swcgeom.core.tree", "swcgeom.core.path", "swcgeom.core.node", "swcgeom.core.branch",
                                               "swcgeom.core.compartment", "swcgeom.core.branch_tree", "swcgeom.core.swc", "swcgeom.core.segment"))
+    col.rule("R-LINE", "geometry helpers behind get_volume (line-sphere intersection, point projection, the unit vector on a plane) are orientation "
+             "independent: the helper direction is never parallel to the normal whatever its signs, the quadratic and the projection are the textbook ones",
+             floor=5, shape=True)
+    from . import c13 as _c13
+    col.guard(_c13.helpers, ctx, col)
     col.guard(centring, ctx, col, geo)
     col.guard(numbering, ctx, col)
 
